@@ -1,6 +1,6 @@
 """C11 — unimock wiring: named mock API, argument order, un-mocked calls reach the real function."""
 from ..common import Report
-from ..corpus import load
+from ..corpus import load, load_repo_tests
 from ..deleg import strip
 from ..wrules import (FnModView, TraitView, trait_methods, impl_methods, impls_of, in_macro, last_seg, callee_of, UNIMOCK_ADT)
 
@@ -58,6 +58,8 @@ def analyse_mock_method(im):
 
     def op(x):
         x = strip(x)
+        if x["k"] == "addrof":  # unimock writes `&self` in async bodies (auto-deref'd back)
+            x = strip(x["e"])
         return env.get(x.get("hir_id")) if x["k"] == "local" else None
     ops = [op(scrut["args"][0])]
     tup = strip(scrut["args"][1])
@@ -84,8 +86,10 @@ def run(tier):
     rep = Report("C11", tier, "translation_validation")
     configs = ["unimock_test"] if tier == "quick" else ["unimock_test", "unimock"]
     programs = 0
-    for cfg in configs:
-        ld = load(rep, "pos", cfg)
+    loaded = [(cfg, load(rep, "pos", cfg)) for cfg in configs]
+    if tier == "thorough":
+        loaded.append(("unimock_test", load_repo_tests(rep)))
+    for cfg, ld in loaded:
         crate = ld.crate
         for exp in crate.expansions:
             key0 = exp.ident()
@@ -122,7 +126,7 @@ def run(tier):
                     else:
                         names = sorted(c["name"] for c in md.get("children", []) if c["res_kind"] == "Struct")
                         want = sorted(last_seg(m["path"]) for m in methods)
-                        if names != want:
+                        if not set(want) <= set(names):
                             rep.add("R-MOCKAPI", key0 + " api-members", "mock API module `%s` contains %s, expected one mock function per method %s" % (api, names, want), where=exp.label())
             by_name = {last_seg(o["path"]): o for o in getattr(v, "originals", [])}
             for m in methods:
